@@ -96,6 +96,9 @@ def gen_case(seed, tier='quick'):
               'bufsize': rng.choice([16, 64, 512, 4096, 8192])}
         if not op['ignore'] and rng.random() < 0.5:
             op['explicit_ignore'] = True
+        if op['via'] == 'two_step' and rng.random() < 0.4:
+            op['swap_between'] = rng.choice([-1, rng.randrange(nwb),
+                                             rng.randrange(nwb) + 1])
         if ops and rng.random() < 0.2:
             # the ModelCompiler of the previous load is used again
             op['reuse_compiler'] = True
@@ -379,11 +382,26 @@ def _run(case, fs):
             # parse it (possibly again after an interrupted parse)
             def two_step():
                 holder['archive'] = mc.read_excel_file(path)
+                if op.get('swap_between') is not None:
+                    # the file changes on disk after it has been read: the
+                    # model is the one of the archive that was read
+                    holder['saved'] = fs.get(path)
+                    kk = op['swap_between']
+                    fs.put(path, b'PK\x05\x06 not a workbook any more'
+                           if kk < 0 else xlsx.render_xlsx(
+                               books[kk % len(books)],
+                               books[kk % len(books)].get('knobs')))
+                    bump('fault:file_replaced_between_read_and_parse')
+                    bump('faults_fired')
                 mc.parse_archive(holder['archive'], **kw)
                 mc.model.build_code()
                 return mc.model
-            with st:
-                out = outcome_of(two_step)
+            try:
+                with st:
+                    out = outcome_of(two_step)
+            finally:
+                if 'saved' in holder:
+                    fs.put(path, holder['saved'])
             if out == ['interrupt'] and 'archive' in holder:
                 bump('probe:parse_retried_on_same_archive')
                 mc = ModelCompiler()
